@@ -84,4 +84,9 @@ CHECKS = {
         technique="(a) differential + raw-snapshot monitor over histories through read-only views (every mutator incl. openbin write modes and mount must raise the read-only error and change nothing; every read equals the underlying store's); (b) enforcing audit-hook path-boundary monitor + os.stat/lstat wrappers around every directory-store operation for exhaustive traversal keys, reached directly, through mounts and through resource queries, beside sentinel files",
         text="(a) 8 store configurations x seeded histories, all mutators and reads per step; (b) all keys of depth <= 3/4 over {a, b.txt, ., .., '', __metadata__} with and without leading '/' plus absolute keys into the box x 13 operations x 4 routes, enumerated completely. Exploration (no symlinks).",
         note="The hook blocks every mutating event outside the root (the attempt is the observation); stat/mkdir of ancestors of the root and reads of Python source files are not store I/O."),
+    "C18": dict(
+        category=_EXPL, design_ref="DESIGN.md section 4, C18",
+        technique="field-by-field metadata monitor: returned metadata, the cache's kept copy (cold and warm) and the store's copy (store_key) compared with the reference interpreter's record (last command, namespace, attributes, volatility, file name, links, sub-queries) and with type identifier / data characteristics recomputed from the actual value; command version from the registry",
+        text="Seeded C01-vocabulary queries (successful, failing, links, sub-evaluations, namespaces, attribute commands, file names) under no cache, four cache kinds cold+warm and two store_key targets. Exploration.",
+        note="Only the fields the statement names are compared; failure metadata may be filed under the canonical or the as-typed text."),
 }
